@@ -203,7 +203,7 @@ pub proof fn lemma_block_lines(v: SummaryVariable, val: VV, rest: Seq<char>)
     match val {
         VV::S(s) => { lemma_line_no_nl(v, s); assert(lines_of(v, val) + rest =~= line_of(v, s) + seq!['\n'] + rest); lemma_lines_cons(line_of(v, s), rest); }
         VV::I(i) => {
-            axiom_i64_text(i as i64);
+            lemma_i64_text(i as i64);
             let s = i64_text(i);
             lemma_line_no_nl(v, s); assert(lines_of(v, val) + rest =~= line_of(v, s) + seq!['\n'] + rest); lemma_lines_cons(line_of(v, s), rest);
         }
@@ -243,7 +243,7 @@ pub proof fn lemma_fold_block(acc: Map<SummaryVariable, VV>, v: SummaryVariable,
             assert(fold_lines(seq![line_of(v, s)], 0, acc) == fold_lines(seq![line_of(v, s)], 1, acc.insert(v, val)));
         }
         VV::I(i) => {
-            axiom_i64_text(i as i64);
+            lemma_i64_text(i as i64);
             lemma_step_line(acc, v, i64_text(i));
             assert(fold_lines(seq![line_of(v, i64_text(i))], 0, acc) == fold_lines(seq![line_of(v, i64_text(i))], 1, acc.insert(v, val)));
         }
